@@ -62,6 +62,10 @@ def score(metric, agg, pairs, bin_type=None, event=None):
 def table(ds, spec):
     metric = spec["metric"]
     opts = dict(spec.get("opts") or {})
+    if spec.get("fcst_field"):
+        opts["fcst_field"] = spec["fcst_field"]
+    if spec.get("obs_field"):
+        opts["obs_field"] = spec["obs_field"]
     if spec.get("clim"):
         opts["clim_type"] = spec.get("clim_type", "subtract")
     dsx = ds if spec.get("clim") else {"inputs": ds["inputs"], "clim": None}
@@ -151,6 +155,14 @@ def spec_to_argv(spec, paths, cpath=None):
     o = vutil.opts_to_argv(spec.get("opts") or {})
     for i in range(0, len(o), 2):
         groups.append(o[i:i + 2])
+    fo = (spec.get("opts") or {})
+    def fname(f):
+        return {"obs": "obs", "fcst": "fcst", "pit": "pit"}.get(f[0]) or ("quantile:%s" % gen.fnum(f[1]) if f[0] == "q" else
+                                                                         "threshold:%s" % gen.fnum(f[1]) if f[0] == "thr" else f[1])
+    if spec.get("fcst_field"):
+        groups.append(["-fcst", fname(spec["fcst_field"])])
+    if spec.get("obs_field"):
+        groups.append(["-obs", fname(spec["obs_field"])])
     if spec.get("leg"):
         groups.append(["-leg", ",".join(n.replace(" ", "_") for n in spec["leg"])])
     if spec.get("acc"):
